@@ -12,15 +12,17 @@ ID = "C15"
 ENGINE = "option grid verbose x py_version x mode over statement pool, corpus, version-gated constructs and E-TOK trees; outcome-invariance / monotonicity oracle"
 RULE = (
     "every input of the statement pool (python + xonsh), the shortest corpus statements, a list of version-gated "
-    "constructs (valid and broken variants) and the E-TOK trees (expr, stmt, xsh, match) x verbose in {False, True} x "
+    "constructs (valid and broken variants), the E-TOK trees (expr, stmt, xsh, match) and the 'wrapped' family (every one-line "
+    "erroneous snippet of the repository's error tests and every one-line pool statement, bare and inside 9 bracket / "
+    "condition / subprocess wrappers) x verbose in {False, True} x "
     "py_version in {None, (3,8)..(3,13)} x mode in {exec, eval} (full grid for pool/corpus/gated inputs; for the E-TOK "
     "trees verbose x mode at the default version and three lowered versions). Oracle: the outcome (tree dump with "
     "positions, or exception class + message + location) is identical with verbose on and off; for each version it "
     "equals the default outcome or is a SyntaxError naming a required version above it, and from the first version "
     "that gives the default outcome on, all higher ones do. Non-trivial = inputs x configurations evaluated (distinct)."
 )
-BOUND = {"quick": "pool + 150 corpus statements + gated list: full 28-point grid; E-TOK n<=3 (expr, stmt, xsh, match): 7 points",
-         "thorough": "pool + all corpus statements + gated list: full grid; E-TOK n<=4 (stmt n<=3): 7 points"}
+BOUND = {"quick": "pool + 150 corpus statements + gated list: full 28-point grid; E-TOK n<=3 (expr, stmt, xsh, match) and the wrapped family: 7 points",
+         "thorough": "pool + all corpus statements + gated list: full grid; E-TOK n<=4 (stmt n<=3) and the wrapped family: 7 points"}
 ASSUMPTIONS = ["stdout is discarded while verbose tracing is on; tracing cost bounds the input sizes used"]
 CASE_DEADLINE = 30.0
 
@@ -74,7 +76,19 @@ def units(tier: str) -> list[tuple]:
     for v in ("expr", "stmt", "xsh", "match"):
         n = 3 if q or v == "stmt" else 4
         us += [("light",) + u for u in tokspace.units(v, n)]
+    ne = len(_wrap_sources())
+    us += [("wrap", i, min(ne, i + 10)) for i in range(0, ne, 10)]
     return us
+
+
+WRAPPERS = ["{S}", "[{S}]", "({S})", "f({S})", "if ({S}):\n    pass\n", "x[{S}]", "{{{S}}}", "while [{S}]:\n    pass\n", "$({S})", "@({S})"]
+
+
+def _wrap_sources() -> list[str]:
+    """One-line texts - erroneous snippets of the repository's error tests and the statement pool - to be put inside
+    brackets: the diagnostics of the second pass are reached through memoised rules there."""
+    out = [s.rstrip("\n") for s in corpus.error_snippets()] + [s.rstrip("\n") for s in corpus.POOL]
+    return [s for s in dict.fromkeys(out) if s and "\n" not in s]
 
 
 def cases(unit: tuple) -> Iterator[dict]:
@@ -83,6 +97,11 @@ def cases(unit: tuple) -> Iterator[dict]:
         full = list(corpus.POOL) + GATED + corpus.python_stmts()[: 150 if tier == "quick" else 10**6]
         for s in full[unit[1] : unit[2]]:
             yield {"src": s, "grid": "full"}
+    elif unit[0] == "wrap":
+        for s in _wrap_sources()[unit[1] : unit[2]]:
+            for w in WRAPPERS:
+                t = w.replace("{{", "\0").replace("}}", "\1").replace("{S}", s).replace("\0", "{").replace("\1", "}")
+                yield {"src": t if t.endswith("\n") else t + "\n", "grid": "light"}
     else:
         for s, _ in tokspace.expand(unit[1:]):
             yield {"src": s, "grid": "light"}
